@@ -28,6 +28,7 @@ type setOp struct {
 	DurNs   int64  `json:"durNs"`
 	Ref     int    `json:"ref,omitempty"`
 	Both    bool   `json:"both"` // SetDeadline instead of SetReadDeadline
+	WriteOnly bool `json:"writeOnly,omitempty"` // SetWriteDeadline: says nothing about reads
 }
 
 type readOp struct {
@@ -49,6 +50,7 @@ type scenario struct {
 	Sets   []setOp   `json:"sets"`
 	Sets2  []setOp   `json:"sets2,omitempty"` // a second worker setting deadlines concurrently
 	Reads  []readOp  `json:"reads"`
+	Reads2 []readOp  `json:"reads2,omitempty"` // a second goroutine reading from the same connection
 	Writes []writeOp `json:"writes"`
 }
 
@@ -94,6 +96,10 @@ func gen(r *harn.Rng, tier string) interface{} {
 			op.Kind, op.DurNs = "future", durs[r.Intn(len(durs))]
 		}
 		sc.Sets = append(sc.Sets, op)
+		if r.Bool(0.15) {
+			// the other direction's deadline is set or cleared in between
+			sc.Sets = append(sc.Sets, setOp{Kind: []string{"zero", "zero", "past", "future"}[r.Intn(4)], DurNs: durs[r.Intn(len(durs))], WriteOnly: true})
+		}
 	}
 	if r.Bool(0.2) {
 		for i, n := 0, r.Range(1, 3); i < n; i++ {
@@ -115,10 +121,15 @@ func gen(r *harn.Rng, tier string) interface{} {
 	for i, n := 0, r.Range(1, 5); i < n; i++ {
 		sc.Reads = append(sc.Reads, readOp{SleepNs: sl(), Zero: zeroOK && r.Bool(0.1)})
 	}
+	if r.Bool(0.25) {
+		for i, n := 0, r.Range(1, 3); i < n; i++ {
+			sc.Reads2 = append(sc.Reads2, readOp{SleepNs: sl()})
+		}
+	}
 	for i, n := 0, r.Range(0, 3); i < n; i++ {
 		sc.Writes = append(sc.Writes, writeOp{SleepNs: sl(), Len: r.Pick(4, 100, 1000), Foreign: sc.Conn == "vnetdial" && r.Bool(0.5)})
 	}
-	sc.CloseThen = (sc.Conn == "buffer" || sc.Conn == "udp" || sc.Conn == "bridge") && r.Bool(0.3)
+	sc.CloseThen = (sc.Conn == "buffer" || sc.Conn == "udp" || sc.Conn == "bridge" || sc.Conn == "vnet" || sc.Conn == "vnetdial") && r.Bool(0.3)
 	sc.CloseFuture = r.Bool(0.5)
 	if r.Bool(0.4) {
 		sc.Interrupt = r.Range(1, 2)
@@ -131,6 +142,7 @@ type conn struct {
 	read        func(b []byte) (int, error)
 	setRead     func(t time.Time) error
 	setBoth     func(t time.Time) error
+	setWrite    func(t time.Time) error // nil: the type has no write deadline
 	write       func(b []byte) error // makes one datagram arrive at the reading side
 	writeForeign func(b []byte) error // vnetdial: a datagram from a third party
 	closeRead   func()               // closes the reading side
@@ -158,7 +170,7 @@ func open(env *simrt.Env, kind string) *conn {
 	case "dpipe":
 		a, b := dpipe.Pipe()
 		return &conn{
-			read: a.Read, setRead: a.SetReadDeadline, setBoth: a.SetDeadline,
+			read: a.Read, setRead: a.SetReadDeadline, setBoth: a.SetDeadline, setWrite: a.SetWriteDeadline,
 			write:    func(p []byte) error { _, err := b.Write(p); return err },
 			teardown: func() { _ = a.Close(); _ = b.Close() },
 		}
@@ -189,7 +201,7 @@ func open(env *simrt.Env, kind string) *conn {
 			return nil
 		}
 		return &conn{
-			read: c.Read, setRead: c.SetReadDeadline, setBoth: c.SetDeadline,
+			read: c.Read, setRead: c.SetReadDeadline, setBoth: c.SetDeadline, setWrite: c.SetWriteDeadline,
 			write:    func(p []byte) error { _, err := peer.WriteTo(p, l.Addr()); return err },
 			teardown: func() { _ = c.Close(); _ = l.Close(); _ = peer.Close() }, closeRead: func() { _ = c.Close() },
 		}
@@ -221,6 +233,7 @@ func open(env *simrt.Env, kind string) *conn {
 			Read([]byte) (int, error)
 			SetReadDeadline(time.Time) error
 			SetDeadline(time.Time) error
+			SetWriteDeadline(time.Time) error
 			Close() error
 		}
 		var err1 error
@@ -248,7 +261,8 @@ func open(env *simrt.Env, kind string) *conn {
 			return nil
 		}
 		return &conn{
-			read: c1.Read, setRead: c1.SetReadDeadline, setBoth: c1.SetDeadline,
+			read: c1.Read, setRead: c1.SetReadDeadline, setBoth: c1.SetDeadline, setWrite: c1.SetWriteDeadline,
+			closeRead: func() { _ = c1.Close() },
 			write: func(p []byte) error {
 				_, err := c2.WriteTo(p, &net.UDPAddr{IP: net.ParseIP("10.0.0.1"), Port: 4000})
 				return err
@@ -270,7 +284,7 @@ func open(env *simrt.Env, kind string) *conn {
 			}
 		})
 		return &conn{
-			read: c0.Read, setRead: c0.SetReadDeadline, setBoth: c0.SetDeadline,
+			read: c0.Read, setRead: c0.SetReadDeadline, setBoth: c0.SetDeadline, setWrite: c0.SetWriteDeadline,
 			write: func(p []byte) error { _, err := c1.Write(p); return err },
 			closeRead: func() {
 				_ = c0.Close()
@@ -312,7 +326,8 @@ func run(env *simrt.Env, sci interface{}) {
 		return
 	}
 	var sets []*setRec
-	reads := make([]*readRec, len(sc.Reads))
+	var reads []*readRec // in the order of invocation
+	var extra []*simrt.Handle // readers started for the interrupt epilogue
 	var hs []*simrt.Handle
 	setter := func(ops []setOp) func() {
 		return func() {
@@ -339,6 +354,16 @@ func run(env *simrt.Env, sci interface{}) {
 						v = env.Now().Add(time.Millisecond)
 					}
 				}
+				if o.WriteOnly {
+					if c.setWrite != nil {
+						if err := c.setWrite(v); err != nil {
+							env.Fail("C10/set-deadline-error", "%s: setting the write deadline failed: %v", sc.Conn, err)
+							return
+						}
+						env.Probe("write-deadline-touched")
+					}
+					continue
+				}
 				rec := &setRec{val: v, past: o.Kind == "past" || o.Kind == "epoch" || (o.Kind == "same" && !v.After(env.Now())), inv: env.Stamp()}
 				sets = append(sets, rec)
 				var err error
@@ -359,27 +384,34 @@ func run(env *simrt.Env, sci interface{}) {
 	if len(sc.Sets2) > 0 {
 		hs = append(hs, env.Go("setter2", setter(sc.Sets2)))
 	}
-	readerH := env.Go("reader", func() {
-		buf := make([]byte, 2048)
-		for i, o := range sc.Reads {
-			env.Sleep(time.Duration(o.SleepNs))
-			r := &readRec{tInv: env.Now(), inv: env.Stamp()}
-			reads[i] = r
-			rb := buf
-			if o.Zero {
-				rb = buf[:0]
+	reader := func(ops []readOp) func() {
+		return func() {
+			buf := make([]byte, 2048)
+			for _, o := range ops {
+				env.Sleep(time.Duration(o.SleepNs))
+				r := &readRec{tInv: env.Now(), inv: env.Stamp()}
+				reads = append(reads, r)
+				rb := buf
+				if o.Zero {
+					rb = buf[:0]
+				}
+				env.Enter("Read")
+				r.n, r.err = c.read(rb)
+				if o.Zero && r.n == 0 && errors.Is(r.err, io.ErrShortBuffer) {
+					r.err, r.cut = nil, true // a datagram was consumed; none of its bytes fit
+				}
+				env.Leave()
+				r.tRet = env.Now()
+				r.ret = env.Stamp()
+				r.done = true
 			}
-			env.Enter("Read")
-			r.n, r.err = c.read(rb)
-			if o.Zero && r.n == 0 && errors.Is(r.err, io.ErrShortBuffer) {
-				r.err, r.cut = nil, true // a datagram was consumed; none of its bytes fit
-			}
-			env.Leave()
-			r.tRet = env.Now()
-			r.ret = env.Stamp()
-			r.done = true
 		}
-	})
+	}
+	readerH := env.Go("reader", reader(sc.Reads))
+	var reader2H *simrt.Handle
+	if len(sc.Reads2) > 0 {
+		reader2H = env.Go("reader2", reader(sc.Reads2))
+	}
 	hs = append(hs, env.Go("writer", func() {
 		for _, o := range sc.Writes {
 			env.Sleep(time.Duration(o.SleepNs))
@@ -462,7 +494,22 @@ func run(env *simrt.Env, sci interface{}) {
 		return
 	}
 	nData := 0
-	sawTimeoutUnder := map[int]bool{} // index of the governing Set -> a read already timed out under it
+	// index of the governing Set -> when the first read that timed out under it returned (with two
+	// readers only a read invoked after that moment is known to have started with the deadline passed)
+	firstTimeoutUnder := map[int]uint64{}
+	for _, r := range reads {
+		if r == nil || !r.done || !isTimeout(r.err) {
+			continue
+		}
+		if c := possiblyLast(r.inv); len(c) == 1 {
+			if _, overlapping := inForce(r); !overlapping {
+				if at, ok := firstTimeoutUnder[c[0]]; !ok || r.ret < at {
+					firstTimeoutUnder[c[0]] = r.ret
+				}
+			}
+		}
+	}
+	sawTimeoutUnder := map[int]bool{}
 	for i, r := range reads {
 		if r == nil {
 			continue
@@ -504,9 +551,6 @@ func run(env *simrt.Env, sci interface{}) {
 				env.Fail("C10/spurious-timeout", "%s: read #%d [%s, %s] failed with a timeout (%v) but no deadline in force had passed: in force %v", sc.Conn, i, rel(r.tInv), rel(r.tRet), r.err, relAll(vals))
 				return
 			}
-			if !overlapping {
-				sawTimeoutUnder[gov] = true
-			}
 			env.Probe("timeout")
 			continue
 		}
@@ -531,6 +575,9 @@ func run(env *simrt.Env, sci interface{}) {
 			}
 		}
 		if !overlapping && gov >= 0 && !vals[0].IsZero() {
+			if at, ok := firstTimeoutUnder[gov]; ok && at < r.inv {
+				sawTimeoutUnder[gov] = true
+			}
 			pastAtSet := sets[gov].past
 			if sawTimeoutUnder[gov] || pastAtSet {
 				why := "an earlier read had already timed out under this deadline"
@@ -546,13 +593,26 @@ func run(env *simrt.Env, sci interface{}) {
 		// The interrupt idiom. The system is quiescent, so a read that has not returned is parked
 		// inside the read, waiting. Its deadline now passes (set to the past): the read is released
 		// with a timeout, and moving the deadline on right afterwards does not take that back.
-		blocked := -1
+		var blocked []int
 		for i, r := range reads {
 			if r != nil && !r.done {
-				blocked = i
+				blocked = append(blocked, i)
 			}
 		}
-		if blocked >= 0 {
+		if len(blocked) == 0 {
+			// nobody is waiting: clear the deadline and let one to three goroutines block in Read
+			_ = c.setRead(time.Time{})
+			for k, n := 0, 1+len(sc.Reads)%3; k < n; k++ {
+				extra = append(extra, env.Go(fmt.Sprintf("late-reader%d", k), reader([]readOp{{}})))
+			}
+			env.QuiesceWithin(time.Millisecond)
+			for i, r := range reads {
+				if r != nil && !r.done {
+					blocked = append(blocked, i)
+				}
+			}
+		}
+		if len(blocked) > 0 {
 			_ = c.setRead(env.Now().Add(-time.Millisecond))
 			if sc.Interrupt == 1 {
 				_ = c.setRead(time.Time{})
@@ -560,21 +620,29 @@ func run(env *simrt.Env, sci interface{}) {
 				_ = c.setRead(env.Now().Add(time.Hour))
 			}
 			env.QuiesceWithin(time.Millisecond)
-			r := reads[blocked]
-			if !r.done {
-				env.Fail("C10/blocked-past-deadline", "%s: read #%d was blocked when its deadline was set to the past (and then moved on at once): the deadline passed while it waited, yet it is still blocked", sc.Conn, blocked)
-				return
-			}
-			if !isTimeout(r.err) {
-				env.Fail("C10/blocked-past-deadline", "%s: read #%d was blocked with no data when its deadline was set to the past; it returned (%d, %v) instead of a timeout", sc.Conn, blocked, r.n, r.err)
-				return
+			for _, bi := range blocked {
+				r := reads[bi]
+				if !r.done {
+					env.Fail("C10/blocked-past-deadline", "%s: read #%d (one of %d blocked reads) was blocked when its deadline was set to the past (and then moved on at once): the deadline passed while it waited, yet it is still blocked", sc.Conn, bi, len(blocked))
+					return
+				}
+				if !isTimeout(r.err) {
+					env.Fail("C10/blocked-past-deadline", "%s: read #%d was blocked with no data when its deadline was set to the past; it returned (%d, %v) instead of a timeout", sc.Conn, bi, r.n, r.err)
+					return
+				}
 			}
 			env.Probe("interrupted-read")
+			if len(blocked) > 1 {
+				env.Probe("interrupted-two-readers")
+			}
 		}
 	}
 	_ = c.setRead(env.Now().Add(-time.Hour)) // release a reader that is still waiting
 	if sc.CloseThen && c.closeRead != nil {
 		env.Join(readerH)
+		if reader2H != nil {
+			env.Join(reader2H)
+		}
 		// the deadline has passed; the connection is closed; the deadline is cleared again: a read
 		// now reports buffered data or the end of the connection, not a timeout any more
 		if sc.CloseFuture {
@@ -601,6 +669,10 @@ func run(env *simrt.Env, sci interface{}) {
 	}
 	c.teardown()
 	env.Join(readerH)
+	env.Join(extra...)
+	if reader2H != nil {
+		env.Join(reader2H)
+	}
 	env.Join(c.background...)
 }
 
